@@ -102,6 +102,10 @@ def build_pts(case, variant, dt):
                 # a non-unitary (but invertible) change of the Liouville basis
                 gmat = np.diag(1.0 + 0.25 * np.arange(d * d)) @ gmat
             kw = {"transform_in": gmat.T, "transform_out": np.linalg.inv(gmat).T}
+            if variant.get("transforms") == "in-only":
+                kw.pop("transform_out")
+            if variant.get("transforms") == "out-only":
+                kw.pop("transform_in")
         pt = SimpleProcessTensor(d, dt=(dt if variant.get("pt_dt", True) else None), **kw)
         anc = np.zeros((ed, ed), dtype=complex)
         anc[a0[e - 1], a0[e - 1]] = 1.0
@@ -116,7 +120,9 @@ def build_pts(case, variant, dt):
                 t = np.moveaxis(t[np.newaxis], 0, 1)
             if w is not None:
                 # stored tensor lives in the transformed basis: T~ = inv(G).T @ T @ G.T on (in, out)
-                t = np.einsum("iy,pfyx,xo->pfio", np.linalg.inv(gmat).T, t, gmat.T)
+                gin = np.linalg.inv(gmat).T if "transform_in" in kw else np.eye(d * d)
+                gout = gmat.T if "transform_out" in kw else np.eye(d * d)
+                t = np.einsum("iy,pfyx,xo->pfio", gin, t, gout)
             pt.set_mpo_tensor(r, t)
         if variant.get("caps", "computed") == "computed":
             pt.compute_caps()
@@ -149,6 +155,14 @@ def build_system(case):
     return PlanSystem(np.zeros((d, d)))
 
 
+def k_operator(d):
+    """non-diagonal monomial operator K = Shift(1) . diag(B)"""
+    k = np.zeros((d, d), dtype=complex)
+    for t in range(d):
+        k[(t + 1) % d, t] = B_DIAG[t]
+    return k
+
+
 def control_superop(d, m, r, cid):
     if cid == 1:
         return np.eye(d * d, dtype=complex)
@@ -168,6 +182,8 @@ def control_superop(d, m, r, cid):
         return np.kron(np.eye(d), np.diag(A_DIAG[:d]).T)          # right multiplication by A
     if cid == 8:
         return np.kron(np.eye(d), np.diag(B_DIAG[:d]).T)
+    if cid == 9:
+        return np.kron(k_operator(d), np.eye(d))                   # left multiplication by K
     raise ValueError(cid)
 
 
@@ -183,11 +199,16 @@ def control_time(c, dt, start, float_times=False):
     return int(r)
 
 
-def build_control(case, dt, start, float_times=False):
+def build_control(case, dt, start, float_times=False, between=None):
+    """`between`: a callable run after the first half of the controls has been added (the same Control
+    object is used in a computation, then extended: controls added later must still act)."""
     import oqupy
     d, m = case["d"], case["m"]
     ctrl = oqupy.Control(d)
-    for c in sorted(case["ctl"], key=lambda c: c[3]):
+    entries = sorted(case["ctl"], key=lambda c: c[3])
+    for i, c in enumerate(entries):
+        if between is not None and i == (len(entries) + 1) // 2:
+            between(ctrl)
         ctrl.add_single(control_time(c, dt, start, float_times), control_superop(d, m, c[0], c[2]),
                         post=bool(c[1]))
     return ctrl
@@ -246,12 +267,17 @@ def run_case(job):
         if order:
             pts = [pts[i] for i in order]
         system = build_system(case)
-        ctrl = build_control(case, dt, start, float_times=variant.get("float_times", False)) if case["ctl"] else None
         kw = {}
         if not pts or not variant.get("pt_dt", True):
             kw["dt"] = dt
         if not pts:
             kw["num_steps"] = n
+        between = None
+        if variant.get("incremental"):
+            between = lambda c_: oqupy.compute_dynamics(system, initial_state=rho0, process_tensor=pts if pts else None,
+                                                        control=c_, start_time=start, progress_type="silent", **kw)
+        ctrl = build_control(case, dt, start, float_times=variant.get("float_times", False), between=between) \
+            if case["ctl"] else None
         dyn = oqupy.compute_dynamics(system, initial_state=rho0,
                                      process_tensor=pts if pts else None,
                                      control=ctrl, start_time=start, progress_type="silent", **kw)
